@@ -362,6 +362,13 @@ def gen_case(rng, tier, kind=None, dtype=None, align=None, uf=None):
             c["dtype"] = "int64"          # (no histogram of complex numbers in numpy)
             c["vals"] = [int(x.real) if isinstance(x, complex) else int(x) for x in c["vals"]]
         c["bins"] = rng.choice([3, 10, [0, 1, 2, 5], [-100, 0, 100]])
+        if rng.random() < 0.35 and np.dtype(c["dtype"]).kind in "iu":
+            # consecutive integer edges that end exactly on the largest value (numpy's last bin is closed on the right), one short of it, one past it
+            lo_, hi_ = int(min(c["vals"])), int(max(c["vals"]))
+            if hi_ - lo_ <= 400:
+                c["bins"] = list(range(lo_, hi_ + rng.choice([0, 1, 1, 2]) + 0)) if hi_ > lo_ + 1 else [lo_, lo_ + 1, lo_ + 2]
+                if len(c["bins"]) < 2:
+                    c["bins"] = [lo_, lo_ + 1]
         u = rng.random()
         if u < 0.3:
             c["kw"] = {"density": True}
